@@ -58,7 +58,7 @@ func Merc(this *SR) (forward, inverse Transformer, err error) {
 			y = this.Y0 + this.A*K0*math.Log(math.Tan(fortPi+0.5*lat))
 		} else {
 			var sinphi = math.Sin(lat)
-			var ts = tsfnz(this.E, lat, sinphi)
+			var ts = tsfnz(E, lat, sinphi)
 			x = this.X0 + this.A*K0*adjust_lon(lon-this.Long0)
 			y = this.Y0 - this.A*K0*math.Log(ts)
 		}
@@ -74,7 +74,7 @@ func Merc(this *SR) (forward, inverse Transformer, err error) {
 			lat = halfPi - 2*math.Atan(math.Exp(-y/(this.A*K0)))
 		} else {
 			var ts = math.Exp(-y / (this.A * K0))
-			lat, err = phi2z(this.E, ts)
+			lat, err = phi2z(E, ts)
 			if err != nil {
 				return
 			}
